@@ -241,8 +241,13 @@ class OpsMixin:
 
     def ex_Dict(self, node):
         d = self.new_dict()
+        items = []
         for k, v in zip(node.keys, node.values):
-            self.dict_set(d, self.val(self.ev(k)), self.val(self.ev(v)), node)
+            kv, vv = self.val(self.ev(k)), self.val(self.ev(v))
+            self.dict_set(d, kv, vv, node)
+            items.append((kv, vv))
+        # a dict display held by a local that is never mutated iterates in its written order
+        self.static_dicts[z3.simplify(Value.a(d)).sexpr()] = items
         return d
 
     def ex_Set(self, node):
